@@ -290,8 +290,9 @@ class _InlineFunction(XPathFunction):
         if context is None:
             raise self.missing_context()
         elif self.label.endswith('function'):
-            self.variables = context.variables.copy()  # like a closure
-            return self
+            func = copy(self)  # a new function item for each evaluation
+            func.variables = context.variables.copy()  # like a closure
+            return func
 
         # A function test
         if not isinstance(context.item, XPathFunction):
